@@ -95,3 +95,30 @@ def to_np(x):
     if isinstance(x, torch.Tensor):
         return x.detach().cpu().numpy()
     return np.asarray(x)
+
+
+class forced_bad_atoms:
+    """Harness-owned randomness: while active, pulser's draw `np.random.uniform(size=N) < state_prep_error`
+    yields exactly `mask` (True = badly prepared), in register order.  Other calls are passed through."""
+
+    def __init__(self, mask):
+        self.mask = [bool(b) for b in mask]
+        self.hits = 0
+
+    def __enter__(self):
+        self._orig = np.random.uniform
+        n = len(self.mask)
+
+        def uniform(*a, **k):
+            size = k.get("size", a[2] if len(a) > 2 else None)
+            if size == n and not a[:2] and set(k) <= {"size"}:
+                self.hits += 1
+                return np.array([0.0 if b else 1.0 for b in self.mask])
+            return self._orig(*a, **k)
+
+        np.random.uniform = uniform
+        return self
+
+    def __exit__(self, *exc):
+        np.random.uniform = self._orig
+        return False
